@@ -59,9 +59,16 @@ ODD = [
 ]
 
 
+SMALL_DOMAIN = 300  # a field with at most this many values is swept whole (prefix lengths, octets, DSCP, codes)
+
+
 def boundary_values(limit: int, tier: str) -> list[int]:
     vs = {0, 1, limit - 2, limit - 1, limit, limit + 1, 2 * limit, limit * 256}
     vs |= set(NUMERIC_EXTRA)
+    if limit <= SMALL_DOMAIN:
+        # every value of a small domain: a value in the middle can be special for a reason the bounds do not show
+        # (F96: the prefix length 32 of an IPv6 route, because 32 is also the prefix length of the peer's IPv4 address)
+        vs |= set(range(0, limit + 2))
     return sorted(v for v in vs if v >= 0)
 
 
@@ -765,8 +772,10 @@ def build_cases(sw: Sweep, tier: str) -> list[tuple[Case, tuple[str, ...]]]:
             continue
         hexform = spec.note == 'hex'
         for v in boundary_values(limit, tier):
+            if spec.name == 'attrCode' and v in (3, 5):
+                continue  # NEXT_HOP and LOCAL_PREF are the speaker's own (see the random sample): not a numeric question
             vt = hex(v) if hexform else str(v)
-            file_too = tier == 'thorough' or v in (limit - 1, limit, 0, 2**32, 2**64)
+            file_too = tier == 'thorough' or v in (limit - 1, limit, 0, 2**32, 2**64) or (limit <= SMALL_DOMAIN // 2 and v <= limit + 1)
             cases.append((Case(spec, vt, v, cls_of(v, limit)), full + (('file',) if file_too else ())))
         if spec.name in ('aigp', 'communityPlain'):
             # the grammar of these two also takes 0x… : the same boundaries written in hexadecimal
